@@ -14,13 +14,18 @@ MANIFEST = dict(
     technique='Lean 4 proof (SSE grammar round trip by induction over events/lines/characters; decision-table case analysis; fold lemmas) + differential correspondence run with a scripted HTTP transport + independent property oracle',
     design='5/C11',
 )
-GEN = ["HttpParams"]
+GEN: list = []
+SUPP_GEN = ["HttpParams"]
 THEOREMS = [
     "c11_parse_render", "c11_exactly_one_terminal", "c11_failure_only_synthesised", "c11_success_passthrough",
     "c11_json_body_messages", "c11_sse_body_messages", "c11_no_id_for_notification", "c11_failures_independent",
-    "c11_every_request_processed", "c11_session_header_latest", "c11_close",
+    "c11_every_request_processed", "c11_session_header_latest", "c11_repeated_failures",
+]
+# not stated by the property text (Props/C11Supp.lean): reported as INFO, never a verdict
+SUPP_THEOREMS = [
+    "c11_options_irrelevant", "c11_instances_independent", "c11_close",
     "c11_post_protocol_headers", "c11_post_session_header", "c11_post_authorization", "c11_params_auth_headers",
-    "c11_post_custom_headers", "c11_params_translated", "c11_params_accept_iff", "c11_params_url_normalised",
+    "c11_post_custom_headers", "c11_params_accept_iff", "c11_params_url_normalised",
     "c11_stream_chunk_independent", "c11_stream_plain_encodings",
 ]
 RULE = (
@@ -128,6 +133,10 @@ def oracle(case, obs):
         r2 = oracle(case, dict(obs["round2"], round2=None))
         if r2 is not None:
             return (r2[0], "second connection with the same parameters object: " + r2[1], r2[2])
+    for j, other in enumerate(obs.get("others") or []):
+        r2 = oracle(case, dict(other, others=None))
+        if r2 is not None:
+            return (r2[0], f"transport {j + 2} of {len(obs['others']) + 1} alive in the process: " + r2[1], r2[2])
     all_reqs = case["reqs"]
     reqs = [r for r in all_reqs if r.get("garbage") is None]
     T = [m for m in obs["transcript"] if not (m["id"] == {"s": H.FENCE_ID})]
@@ -146,8 +155,9 @@ def oracle(case, obs):
                 mangled_ids.add(canon(G.idtag(m.get("id"))))
 
     # later requests are processed whatever happened before
-    if not obs["fence"]:
-        return ("sender-stopped", f"the request sent after the sequence was never answered ({obs['posts']} POSTs seen)", {"fence": True})
+    if obs["fence"] is not True:
+        how = "was answered by the transport itself instead of being POSTed" if obs["fence"] else "was never answered"
+        return ("sender-stopped", f"the request sent after the sequence {how} ({obs['posts']} POSTs seen for {len(reqs) + 1} messages)", {"fence": True})
 
     # loss-free, ordered pass-through
     for j, e in enumerate(exps):
@@ -170,8 +180,9 @@ def oracle(case, obs):
                     return ("reordered-or-duplicated/unlabelled", f"request {j}: delivered messages are not a subsequence of the body", {"request": j})
                 k += 1
 
-    # nothing invented
-    for m in T:
+    # nothing invented (not judged when a body's reading is left to the code: see G.expect, "free")
+    free = any(e.get("free") for e in exps)
+    for m in ([] if free else T):
         if m["id"] is None and m["kind"] not in ("request", "notification"):
             continue  # id-less terminal / empty message: not an observable of the property
         if canon(m) in all_srv:
@@ -219,7 +230,20 @@ def oracle(case, obs):
 
 class _Base(Suite):
     def impl_batch(self, cases):
-        return H.run_cases(cases)
+        # a single case (shrinking, replay) runs in a process no other case has touched; in a batch, a case that
+        # seems to violate the property is confirmed the same way — state left behind by EARLIER cases (class-level
+        # or module-level state of the code under test) must not make an input look failing that does not fail alone
+        if len(cases) == 1:
+            return [H.run_pristine(cases[0])]
+        obs = H.run_cases(cases)
+        for i, c in enumerate(cases):
+            try:
+                bad = oracle(c, obs[i]) is not None
+            except Exception:
+                bad = True
+            if bad:
+                obs[i] = H.run_pristine(c)
+        return obs
 
     def model_line(self, case):
         return H.model_line(case)
@@ -238,6 +262,9 @@ class _Base(Suite):
             return "transcript or headers differ"
         if o.get("round2") is not None and not H.same(case, H.comparable_impl(o["round2"]), m):
             return "second connection differs"
+        for other in o.get("others") or []:
+            if not H.same(case, H.comparable_impl(other), m):
+                return "a second transport in the same process behaves differently"
         return None
 
     def oracle(self, case, o):
@@ -264,7 +291,7 @@ class Singles(_Base):
 
     def cases(self, ctx, budget):
         ctx.exhaustive_parts.append("singles: every cell of status x content-type x body class x request kind; every transport exception x id shape")
-        return G.singles()
+        return G.decorate(G.singles(), salt=0)
 
 
 class SseEncodings(_Base):
@@ -273,7 +300,7 @@ class SseEncodings(_Base):
     def cases(self, ctx, budget):
         if budget != "quick":
             ctx.exhaustive_parts.append("sse-encodings: every combination of event field x data space x eol x ignored lines x ending x multi-line x content")
-        return G.sse_encodings(stride=1 if budget != "quick" else 3)  # 3 is coprime to the periods (2, 4) of the derived choices
+        return G.decorate(G.sse_encodings(stride=1 if budget != "quick" else 3), salt=2)  # 3 is coprime to the periods (2, 4) of the derived choices
 
     def kind(self, case, o):
         body = case["reqs"][0]["b"]["body"]
@@ -292,7 +319,7 @@ class Sequences(_Base):
         rng = ctx.sub_rng("c11-seq", budget)
         n = {"quick": 400, "thorough": 30000, "search": 8000}[budget]
         out += G.sampled_sequences(rng, n, maxlen=4)
-        return out
+        return G.decorate(out, salt=3)
 
     def kind(self, case, o):
         return f"seq/len{len(case['reqs'])}"
@@ -304,7 +331,7 @@ class Seeded(_Base):
     def cases(self, ctx, budget):
         rng = ctx.sub_rng("c11-rand", budget)
         n = {"quick": 800, "thorough": 40000, "search": 15000}[budget]
-        return [G.random_single(rng, k) for k in range(n)]
+        return G.decorate([G.random_single(rng, k) for k in range(n)], salt=5)
 
 
 class Hardening(_Base):
@@ -319,10 +346,10 @@ class Hardening(_Base):
             "defensive handlers 120/127-128/330-333/431-432/453-454, the streaming SSE branch 352-391 (dead: httpx responses always "
             "have .text) and the pending-future branch 473-480 (dead: the unified message class always has a `method` attribute); "
             "the hard/* buckets of the distribution name the sweep classes")
-        return G.hardening(ctx.sub_rng("c11-hard", budget), budget)
+        return G.decorate(G.hardening(ctx.sub_rng("c11-hard", budget), budget), salt=7) + G.hardening2(ctx.sub_rng("c11-hard2", budget), budget)
 
     def kind(self, case, o):
-        return "hard/" + case.get("hk", "?")
+        return "hard/" + case.get("hk", "?") + ("/debug-logging" if case.get("debug") else "")
 
 
 HTTPX_OWN = {"host", "content-length", "accept-encoding", "connection"}
@@ -341,10 +368,9 @@ class Headers(Suite):
     note (INFO) and is not by itself a broken correspondence of the property; the session-header part
     of the property is judged by the oracle of the main suites."""
     name = "headers"
+    supplementary = True
 
     def cases(self, ctx, budget):
-        self._ctx = ctx
-        self._info = 0
         rng = ctx.sub_rng("c11-headers", budget)
         out = []
         for hd in HEADER_DICTS:
@@ -395,30 +421,22 @@ class Headers(Suite):
                 "env": c["env"], "sessions": sessions}
 
     def compare(self, c, o, m):
-        diff = None
         if o.get("crash") or "driver_error" in m:
-            diff = "crash / driver error"
-        elif o["cfg"] != m["cfg"]:
-            diff = f"configured headers {o['cfg']} vs model {m['cfg']}"
-        elif len(o["wire"]) != len(m["posts"]):
-            diff = "number of POSTs"
-        else:
-            for k, (wire, post) in enumerate(zip(o["wire"], m["posts"])):
-                names = {a.lower() for a, _ in post}
-                for n in names:
-                    want = [v for a, v in post if a.lower() == n]
-                    got = [v for a, v in wire if a.lower() == n]
-                    if want != got:
-                        diff = f"POST {k} header {n}: sent {got}, model {want}"
-                extra = {a.lower() for a, _ in wire} - names - HTTPX_OWN
-                if extra:
-                    diff = f"POST {k} carries headers the model does not build: {sorted(extra)}"
-        if diff is not None:
-            self._info += 1
-            if self._info <= 3:
-                self._ctx.notes.append(f"INFO (supplementary, not a property violation) header construction differs from HttpHeaders: {diff}; case {canon(c)[:300]}")
-            if self._info == 1:
-                print(f"INFO property=C11 supplementary=header-construction differs from the model (no property violation by itself): {diff}"[:300])
+            return "crash / driver error"
+        if o["cfg"] != m["cfg"]:
+            return f"configured headers {o['cfg']} vs model {m['cfg']}"
+        if len(o["wire"]) != len(m["posts"]):
+            return "number of POSTs"
+        for k, (wire, post) in enumerate(zip(o["wire"], m["posts"])):
+            names = {a.lower() for a, _ in post}
+            for n in sorted(names):
+                want = [v for a, v in post if a.lower() == n]
+                got = [v for a, v in wire if a.lower() == n]
+                if want != got:
+                    return f"POST {k} header {n}: sent {got}, model {want}"
+            extra = {a.lower() for a, _ in wire} - names - HTTPX_OWN
+            if extra:
+                return f"POST {k} carries headers the model does not build: {sorted(extra)}"
         return None
 
     def kind(self, c, o):
@@ -429,13 +447,12 @@ class Params(Suite):
     """the field validators of StreamableHTTPParameters against the REGENERATED Gen/HttpParams predicates
     (translation validation).  Supplementary: divergences are notes."""
     name = "params"
+    supplementary = True
     URLS = ["", "http://", "https://x", "http://x/", "https://x///", "ftp://x", "HTTP://x", " http://x", "httpx://y", "http:/x", "https:/",
             "//x", "http://x/mcp/ ", "https://h\u00e9/mcp/", "/", "h", "https://", "http://a//b//"]
     NUMS = [-1024, -1, 0, 1, 512, 1024, 61440, 10 ** 12]     # in 1/1024 units for the float fields
 
     def cases(self, ctx, budget):
-        self._ctx = ctx
-        self._info = 0
         out = []
         for u in self.URLS:
             out.append({"url": u, "timeout": 1024, "max_retries": 3, "retry_delay": 1024, "mcr": 10})
@@ -467,19 +484,14 @@ class Params(Suite):
         return dict(c, m="http", op="params")
 
     def compare(self, c, o, m):
+        if "driver_error" in m:
+            return "driver error"
         fields = ["url", "timeout", "max_retries", "retry_delay", "max_concurrent_requests"]
         want_bad = sorted(f for f in fields if not m.get(f, True))
-        diff = None
         if want_bad != o["bad"]:
-            diff = f"rejected fields {o['bad']} vs regenerated validators {want_bad}"
-        elif o["ok"] and o["url_stored"] != m["url_stored"]:
-            diff = f"stored url {o['url_stored']!r} vs {m['url_stored']!r}"
-        if diff is not None:
-            self._info += 1
-            if self._info <= 3:
-                self._ctx.notes.append(f"INFO (supplementary) parameter validation differs from Gen/HttpParams: {diff}; case {canon(c)[:200]}")
-            if self._info == 1:
-                print(f"INFO property=C11 supplementary=parameter-validation differs from the regenerated validators: {diff}"[:300])
+            return f"rejected fields {o['bad']} vs regenerated validators {want_bad}"
+        if o["ok"] and o["url_stored"] != m["url_stored"]:
+            return f"stored url {o['url_stored']!r} vs {m['url_stored']!r}"
         return None
 
     def kind(self, c, o):
@@ -491,10 +503,9 @@ class StreamBranch(Suite):
     with the pre-repair grammar) driven directly with a response stub, against SseStream.parseStream:
     every chunking of plain and of conformant-but-not-plain bodies.  Supplementary: divergences are notes."""
     name = "stream-branch"
+    supplementary = True
 
     def cases(self, ctx, budget):
-        self._ctx = ctx
-        self._info = 0
         rng = ctx.sub_rng("c11-stream", budget)
         texts = []
         k = 0
@@ -533,10 +544,9 @@ class StreamBranch(Suite):
 
     def compare(self, c, o, m):
         if "skipped" in o:
-            if not self._info:
-                self._ctx.notes.append(f"INFO stream-branch cases skipped: {o['skipped']}")
-            self._info += 1
             return None
+        if "driver_error" in m:
+            return "driver error"
         want = []
         for x in m.get("outs", []):
             p_ = x["pass"]
@@ -545,15 +555,10 @@ class StreamBranch(Suite):
         if c.get("fail"):
             # the handler of the branch routes one error carrying the request's id after what was dispatched
             if not (got and got[-1]["kind"] in TERMINAL and got[-1]["id"] == {"i": 7}):
-                want = None
-            else:
-                got = got[:-1]
-        if want is None or canon(H._norm(got)) != canon(H._norm(want)):
-            self._info += 1
-            if self._info <= 3:
-                self._ctx.notes.append(f"INFO (supplementary) streaming branch differs from SseStream.parseStream: chunks {canon(c)[:200]}")
-            if self._info == 1:
-                print(f"INFO property=C11 supplementary=stream-branch differs from the model: chunks {canon(c)[:200]}")
+                return "no terminal for the request after the stream broke off"
+            got = got[:-1]
+        if canon(H._norm(got)) != canon(H._norm(want)):
+            return "streaming branch differs from SseStream.parseStream"
         return None
 
     def kind(self, c, o):
@@ -627,4 +632,5 @@ class RealSocket(_Base):
 
 
 def suites():
+    H.start_zygote()
     return [Singles(), SseEncodings(), Sequences(), Seeded(), Hardening(), Headers(), Params(), StreamBranch(), Render(), RealSocket()]
